@@ -162,6 +162,84 @@ inline Outcome de_outcome(const std::string& t) {
 struct ForkRunner {
     std::string scratch;
     int wall_limit_s = 120;
+    // ---- persistent child ("server") mode: one child executes many cases; it is re-forked after a
+    // crash, so a sanitizer abort still pins the exact case.  Only for harnesses without global state.
+    pid_t srv = -1; int to_srv = -1, from_srv = -1; long srv_cases = 0;
+    static bool write_all(int fd, const std::string& s) {
+        uint32_t n = (uint32_t)s.size();
+        std::string buf((const char*)&n, 4); buf += s;
+        size_t off = 0;
+        while (off < buf.size()) { ssize_t w = write(fd, buf.data() + off, buf.size() - off); if (w <= 0) { if (errno == EINTR) continue; return false; } off += w; }
+        return true;
+    }
+    static bool read_n(int fd, char* p, size_t n, int timeout_s) {
+        size_t off = 0;
+        auto t0 = std::chrono::steady_clock::now();
+        while (off < n) {
+            struct pollfd pf = {fd, POLLIN, 0};
+            int r = poll(&pf, 1, 1000);
+            if (r > 0) { ssize_t k = read(fd, p + off, n - off); if (k > 0) { off += k; continue; } if (k < 0 && errno == EINTR) continue; return false; }
+            if (timeout_s > 0 && std::chrono::duration_cast<std::chrono::seconds>(std::chrono::steady_clock::now() - t0).count() > timeout_s) return false;
+        }
+        return true;
+    }
+    static bool read_msg(int fd, std::string* out, int timeout_s) {
+        uint32_t n;
+        if (!read_n(fd, (char*)&n, 4, timeout_s)) return false;
+        out->resize(n);
+        return n == 0 || read_n(fd, &(*out)[0], n, timeout_s);
+    }
+    void stop_server() {
+        if (srv > 0) { close(to_srv); close(from_srv); kill(srv, SIGKILL); int st; while (waitpid(srv, &st, 0) < 0 && errno == EINTR) {} srv = -1; }
+    }
+    Outcome run_server(const RunFn& fn, const Case& c) {
+        std::string errf = scratch + "/err." + std::to_string(getpid());
+        if (srv > 0 && srv_cases >= 20000) stop_server();      // bound quarantine / fragmentation growth
+        if (srv < 0) {
+            int a[2], b[2];
+            if (pipe(a) || pipe(b)) { perror("pipe"); exit(3); }
+            fflush(stdout); fflush(stderr);
+            srv = fork();
+            if (srv < 0) { perror("fork"); exit(3); }
+            if (srv == 0) {
+                close(a[1]); close(b[0]);
+                int efd = open(errf.c_str(), O_WRONLY | O_CREAT | O_TRUNC, 0644);
+                if (efd >= 0) { dup2(efd, 2); close(efd); }
+                int nfd = open("/dev/null", O_WRONLY);
+                if (nfd >= 0) { dup2(nfd, 1); close(nfd); }
+                std::string msg;
+                while (read_msg(a[0], &msg, 0)) {
+                    std::string prop; Case cc;
+                    from_text(msg, &prop, &cc);
+                    Outcome o = fn(cc);
+                    if (!write_all(b[1], ser_outcome(o))) break;
+                }
+                _exit(0);
+            }
+            close(a[0]); close(b[1]);
+            to_srv = a[1]; from_srv = b[0]; srv_cases = 0;
+        }
+        srv_cases++;
+        std::string reply;
+        bool ok = write_all(to_srv, to_text("?", c)) && read_msg(from_srv, &reply, wall_limit_s);
+        if (ok) return de_outcome(reply);
+        // crash or hang
+        int st = 0; bool hung = false;
+        pid_t r = waitpid(srv, &st, WNOHANG);
+        if (r == 0) { hung = true; kill(srv, SIGKILL); while (waitpid(srv, &st, 0) < 0 && errno == EINTR) {} }
+        close(to_srv); close(from_srv); srv = -1;
+        Outcome o;
+        if (hung) { o.status = Outcome::INCONCLUSIVE; o.msg = "wall-clock safety limit"; return o; }
+        std::string tail;
+        { std::ifstream f(errf); std::stringstream ss; ss << f.rdbuf(); tail = ss.str();
+          if (tail.size() > 3000) tail = tail.substr(0, 2200) + "\n...\n" + tail.substr(tail.size() - 700); }
+        o.status = Outcome::VIOLATION;
+        std::ostringstream m;
+        if (WIFSIGNALED(st)) m << "child died on signal " << WTERMSIG(st); else m << "child exited with status " << (WIFEXITED(st) ? WEXITSTATUS(st) : -1);
+        m << "\n" << tail;
+        o.msg = m.str(); o.labels.push_back("crash");
+        return o;
+    }
     Outcome run(const RunFn& fn, const Case& c) {
         int pfd[2];
         if (pipe(pfd)) { perror("pipe"); exit(3); }
@@ -265,6 +343,7 @@ struct Harness {
     RunFn run;
     DescFn desc;     // optional pretty-printer (goes into '#' comment lines)
     bool fork_per_case = true;
+    bool persistent_child = false;   // with fork_per_case: one child serves many cases (stateless harnesses only)
     // optional exhaustive enumeration of a bounded sub-domain (engine E5); runs with --enum
     // (worker 0 only).  Calls emit(case) for every point; emit returns false to stop.
     std::function<void(const Options&, const std::function<bool(const Case&)>&)> enumerate;
@@ -332,7 +411,7 @@ inline int pbt_main(int argc, char** argv, Harness h) {
         Case c = *g;
         if (!failing && (st.evaluations >= cases || elapsed() > budget)) { budget_hit = true; return; }
         note_current(c);
-        Outcome o = nofork ? h.run(c) : fr.run(h.run, c);
+        Outcome o = nofork ? h.run(c) : h.persistent_child ? fr.run_server(h.run, c) : fr.run(h.run, c);
         if (failing) st.shrink_evals++;
         else {
             st.evaluations++;
@@ -363,7 +442,7 @@ inline int pbt_main(int argc, char** argv, Harness h) {
         // enumeration goes small -> large, so the first failure is (near) minimal; no shrinking
         h.enumerate(opt, [&](const Case& c) {
             note_current(c);
-            Outcome o = nofork ? h.run(c) : fr.run(h.run, c);
+            Outcome o = nofork ? h.run(c) : h.persistent_child ? fr.run_server(h.run, c) : fr.run(h.run, c);
             st.evaluations++; enumerated++;
             for (auto& l : o.labels) st.labels[l]++;
             if (o.nontrivial) {
@@ -433,6 +512,7 @@ inline int pbt_main(int argc, char** argv, Harness h) {
         std::ofstream fp(out + ".fps", std::ios::binary);
         for (uint64_t v : st.fps) fp.write((const char*)&v, 8);
     }
+    fr.stop_server();
     unlink((rdir + "/err." + std::to_string(getpid())).c_str());
     if (curfd >= 0) unlink((rdir + "/current.case").c_str());
     fflush(stdout);
